@@ -158,6 +158,11 @@ pub fn fence_family() -> Vec<String> {
         base.push(format!("---\n{yaml}---\n"));
         base.push(format!("---\n{yaml}---"));
     }
+    // lines made of comments and text before a fence pair
+    for head in ["[- v2 -] Pancakes [- draft -]", "[- a -] b7", "-- c\nx9 [- d -]", "[- a -]\n[- b -] y3 [- c -]", "  [- a -] z5 [- b -]  "] {
+        base.push(format!("{head}\n---\nservings: 2\n---\nMix @flour{{200%g}} and @milk{{3%dl}}.\n"));
+        base.push(format!("{head}\r\n---\r\ntitle: x1\r\n---\r\n"));
+    }
     // a first line that begins with `---` without being a fence (a rule, a comment), content, then a real fence pair
     for head in ["---- Pancakes ----", "--- a comment", "----", "---x", "--- ---", "---:"] {
         for yaml in ["", "note: serve warm\n"] {
